@@ -682,6 +682,11 @@ func (s *Service) serve(nc Conn) error {
 		go s.startWorker()
 	}
 
+	// Set the default ownership before the service is flagged as started. Once
+	// started, ResetAll may be called from any goroutine, and must then only
+	// read the owned patterns.
+	s.setDefaultOwnership()
+
 	atomic.StoreInt32(&s.state, stateStarted)
 	verifhook.Note("serve-started", "", s.workerCount)
 
